@@ -8,6 +8,7 @@ import time
 
 HERE = os.path.dirname(os.path.dirname(os.path.abspath(__file__)))
 PRELUDE = os.path.join(HERE, "prelude")
+SPECS = os.path.join(HERE, "specs")
 MEM_KB = int(os.environ.get("VERIF_MEM_KB", str(12 * 1024 * 1024)))
 
 DEFAULT_CHECKS = ["--bounds-check", "--pointer-check", "--pointer-overflow-check",
@@ -101,7 +102,18 @@ def _trace_inputs(trace):
             continue
         v = st.get("value", {})
         val = _value(v)
-        if val is not None:
+        if val is None:
+            continue
+        mo = re.match(r'^(g_in_\w+)\[(\d+)l*\]$', lhs)
+        if mo:
+            arr = vals.setdefault(mo.group(1), [])
+            if not isinstance(arr, list):
+                arr = vals[mo.group(1)] = []
+            i = int(mo.group(2))
+            while len(arr) <= i:
+                arr.append(0)
+            arr[i] = val
+        else:
             vals[lhs] = val
     return vals
 
@@ -141,7 +153,7 @@ def run_job(cfile, job, workdir):
     log = base + ".log"
     open(log, "w").close()
     a, b = base + ".a.gb", base + ".b.gb"
-    cc = ["goto-cc", "--function", job.harness, "-I", PRELUDE, "-DVERIF_CBMC"] + ["-D" + d for d in job.defines] + [cfile, "-o", a]
+    cc = ["goto-cc", "--function", job.harness, "-I", PRELUDE, "-I", SPECS, "-DVERIF_CBMC"] + ["-D" + d for d in job.defines] + [cfile, "-o", a]
     r.cmds.append(" ".join(cc))
     rc, out, err, _ = _run(cc, 120, workdir, log)
     if rc != 0:
@@ -213,12 +225,15 @@ def run_job(cfile, job, workdir):
         return r
     with open(base + ".results.json", "w") as f:
         json.dump([{k: v for k, v in x.items() if k != "trace"} for x in results], f, indent=0)
+    other = 0
     for x in results:
         sl = x.get("sourceLocation", {})
         ob = {"name": x.get("property", "?"), "description": x.get("description", ""), "status": x.get("status", "?"),
               "line": sl.get("line"), "function": sl.get("function")}
         r.obligations.append(ob)
-        if ob["status"] not in ("SUCCESS",):
+        if ob["status"] not in ("SUCCESS", "FAILURE"):
+            other = other + 1
+        elif ob["status"] == "FAILURE":
             r.failed.append(ob)
             if "trace" in x:
                 ins = _trace_inputs(x["trace"])
@@ -227,6 +242,9 @@ def run_job(cfile, job, workdir):
                     r.trace_inputs = ins
     if not r.obligations:
         r.reason = "zero obligations generated"
+        return r
+    if other:
+        r.reason = "%d obligation(s) with status other than SUCCESS/FAILURE (cbmc exit %d: out of memory or internal error)" % (other, rc)
         return r
     r.status = "failed" if r.failed else "ok"
     return r
